@@ -11,6 +11,7 @@ package worldsim
 import (
 	"encoding/json"
 	"fmt"
+	"regexp"
 	"runtime/debug"
 	"sort"
 	"strings"
@@ -111,6 +112,7 @@ type InputSpec struct {
 	Debug    bool          `json:"debug"`
 	LexAlone bool          `json:"lex_alone,omitempty"`
 	Long     bool          `json:"long,omitempty"` // a long flat program (33..80 top-level statements)
+	CRLF     bool          `json:"crlf,omitempty"` // every line end of the text is \r\n
 	// LateTok: an observing token interceptor is installed on the shared lexer builder just before this input's Build
 	LateTok bool `json:"late_tok,omitempty"`
 	// Mode >= 0: just before this input's Build the shared builder is switched to tolerant = bit 0, smart = bit 1
@@ -142,12 +144,16 @@ type JobSpec struct {
 	// SecondPB: a second, plugin-free parser.Builder over the SAME lexer.Builder builds a parser for input 0
 	// after all the first builder's parsers were built
 	SecondPB bool `json:"second_pb,omitempty"`
+	// FillSources: the job completes every source map it gets the way a host does (file name, source name)
+	FillSources bool `json:"fill_sources,omitempty"`
 	// FirstCompileConcurrent: no part compiles anything; the trees meet their first compilations in the recompile tasks
 	FirstCompileConcurrent bool     `json:"first_compile_concurrent,omitempty"`
 	Shared                 [][2]int `json:"shared,omitempty"` // (input, configuration) compiled in this order by one compiler per configuration
 }
 
 var wordPool = []string{"OPA", "OPB", "OPC", "PRE", "POST", "PRF"}
+
+var keywordRe = regexp.MustCompile(`\b(let|function|return|if|else|while|for|true|false|null)\b`)
 
 func roleOf(word string) int {
 	switch {
@@ -266,6 +272,27 @@ func GenJob(seed uint64) *JobSpec {
 			}
 			in.Text, in.Fault = f.Text, f.Kind+":"+f.Ctx
 		}
+		if ch.Bool(1, 10) {
+			// a keyword with two neighbouring letters transposed (`lte`, `fucntion`, `retrun`): what the parser says
+			// about a near-keyword must be as repeatable as everything else
+			if locs := keywordRe.FindAllStringIndex(in.Text, -1); len(locs) > 0 {
+				l := locs[ch.Choose(len(locs))]
+				k := l[0] + ch.Choose(l[1]-l[0]-1)
+				b := []byte(in.Text)
+				b[k], b[k+1] = b[k+1], b[k]
+				in.Text = string(b)
+				if in.Fault == "" {
+					in.Fault = "keyword-typo"
+				} else {
+					in.Fault += "+keyword-typo"
+				}
+			}
+		}
+		if ch.Bool(1, 8) {
+			// the file was saved with CRLF line ends (also inside multi-line literals and comments)
+			in.Text = strings.ReplaceAll(strings.ReplaceAll(in.Text, "\r\n", "\n"), "\n", "\r\n")
+			in.CRLF = true
+		}
 		// compilation plan: repeated configurations are wanted (shared compilers, repeated compilation)
 		nc := 2 + ch.Choose(4)
 		var used []int
@@ -328,6 +355,7 @@ func GenJob(seed uint64) *JobSpec {
 		j.Inputs = append(j.Inputs, in)
 	}
 	j.SecondPB = ch.Bool(1, 4)
+	j.FillSources = ch.Bool(1, 3)
 	if ch.Bool(2, 3) {
 		// few configurations, many trees: the same compiler meets different trees, and the same tree again
 		c1, c2 := ch.Choose(ncfg), ch.Choose(ncfg)
@@ -1180,6 +1208,16 @@ func (j *jobRun) compile(s *sink, key string, prog *ast.Program, cfg xutil.Compi
 	j.env.Note(evCompileBegin, prog)
 	pan := guard(func() { res = cc.Compile(prog) })
 	j.env.Note(evCompileEnd, prog)
+	if j.spec.FillSources && res.SourceMap != nil {
+		// the host completes the map it was handed: it belongs to the host now
+		name := fmt.Sprintf("job-%x.xjs", j.spec.Seed)
+		if len(res.SourceMap.Sources) > 0 {
+			res.SourceMap.Sources[0] = name
+		} else {
+			res.SourceMap.Sources = append(res.SourceMap.Sources, name)
+		}
+		res.SourceMap.File = name + ".js"
+	}
 	text := renderResult(pan, res)
 	s.put(key, text)
 	s.kept = append(s.kept, keptResult{key, res, text})
